@@ -34,7 +34,8 @@ Definition apropos_of_tree (root : list NameModel.port) (path : str) : option pm
       match NameModel.get_port root id with
       | Some q => Some {| enabled_by := meta_value (NameModel.pmeta q) key_enabled_by;
                           depends := meta_value (NameModel.pmeta q) key_depends;
-                          default_depends := meta_value (NameModel.pmeta q) key_default_depends |}
+                          default_depends := meta_value (NameModel.pmeta q) key_default_depends;
+                          port_name := NameModel.pname q |}
       | None => None
       end
   | _ => None
